@@ -220,11 +220,8 @@ impl ElixirTime {
 
         let (microsecond_value, microsecond_precision) =
             if let Some(us) = map.get(&OwnedTerm::Atom(Atom::new("microsecond"))) {
-                if let Some((val, prec)) = us.as_2_tuple() {
-                    (integer(val)?, integer(prec)?)
-                } else {
-                    (0, 0)
-                }
+                let (val, prec) = us.as_2_tuple()?;
+                (integer(val)?, integer(prec)?)
             } else {
                 (0, 0)
             };
@@ -413,11 +410,8 @@ impl ElixirNaiveDateTime {
 
         let (microsecond_value, microsecond_precision) =
             if let Some(us) = map.get(&OwnedTerm::Atom(Atom::new("microsecond"))) {
-                if let Some((val, prec)) = us.as_2_tuple() {
-                    (integer(val)?, integer(prec)?)
-                } else {
-                    (0, 0)
-                }
+                let (val, prec) = us.as_2_tuple()?;
+                (integer(val)?, integer(prec)?)
             } else {
                 (0, 0)
             };
@@ -669,11 +663,8 @@ impl ElixirDateTime {
 
         let (microsecond_value, microsecond_precision) =
             if let Some(us) = map.get(&OwnedTerm::Atom(Atom::new("microsecond"))) {
-                if let Some((val, prec)) = us.as_2_tuple() {
-                    (integer(val)?, integer(prec)?)
-                } else {
-                    (0, 0)
-                }
+                let (val, prec) = us.as_2_tuple()?;
+                (integer(val)?, integer(prec)?)
             } else {
                 (0, 0)
             };
